@@ -1,5 +1,5 @@
 """Rule registry: name -> callable(ctx, prop) -> RuleResult | [RuleResult]."""
-from . import trav, exh, backend
+from . import trav, exh, backend, names, fields, compiler, memory
 
 
 def _trav_scoped(classes, name):
@@ -23,6 +23,19 @@ RULES = {
     "TRAVBASE": trav.rule_travbase,
     "BYPASS": trav.rule_bypass,
     "EXH": exh.rule_exh,
+    "FRESHNAME": names.rule_freshname,
+    "PREC": names.rule_prec,
+    "FIELDS": fields.rule_fields,
+    "DIVMOD": compiler.rule_divmod,
+    "SCALARREF": compiler.rule_scalarref,
+    "WINDOWHOOK": compiler.rule_windowhook,
+    "MEMGATE": compiler.rule_memgate,
+    "CALLBOUNDARY": compiler.rule_callboundary,
+    "TYPETABLES": compiler.rule_typetables,
+    "CONSTQ": compiler.rule_constq,
+    "MEMPAIR": memory.rule_mempair,
+    "FREEONCE": memory.rule_freeonce,
+    "WINALIAS@live": memory.rule_winalias_live,
     "BACKPIPE": backend.rule_backpipe,
     "PAREMIT": backend.rule_paremit,
     "PARCHECK": backend.rule_parcheck,
